@@ -218,7 +218,7 @@ def step_list_model(spec, cfg, tier, seed):
 
     t0 = time.time()
     L = cfg[1]
-    ops = [("add",)] + [("rm", i) for i in range(-1, 4)]
+    ops = [("add",), ("dup",)] + [("rm", i) for i in range(-1, 4)]  # "dup": add the FIRST stage object again (same object at two positions)
     bad_seq = bad_par = None
     count = 0
     for hist in itertools.product(ops, repeat=L):
@@ -227,10 +227,17 @@ def step_list_model(spec, cfg, tier, seed):
             m = SequentialModel() if cls == "seq" else ParallelModel(max_workers=1)
             model = []
             k = 0
+            first = None
             for op in hist:
-                if op[0] == "add":
-                    st = Stage(f"s{k}", tr)
-                    k += 1
+                if op[0] in ("add", "dup"):
+                    if op[0] == "dup" and (first is None or cls == "par"):
+                        continue  # nothing to duplicate yet; ParallelModel names must be distinct (dict-keyed results)
+                    if op[0] == "dup":
+                        st = first
+                    else:
+                        st = Stage(f"s{k}", tr)
+                        k += 1
+                        first = first or st
                     if cls == "seq":
                         m.add_step(st)
                     else:
@@ -344,6 +351,8 @@ def _mac_cfgs(tier):
         for enc in ("shared", "separate"):
             for dec in ("joint", "separate"):
                 out.append(Cfg("mac", users, enc, dec))
+        # pass-through (aliasing) encoders with every user sending the SAME tensor object, model called twice
+        out.append(Cfg("mac", users, "passthrough", "joint"))
     return out
 
 
@@ -388,6 +397,40 @@ def multiple_access(ctx, cfg):
             log.append(("dec", self.tag, x))
             return ctx.reals(f"decout{i}", (2, 2))
 
+    class Pass(BaseModel):
+        """an encoder that returns its input tensor itself (aliasing): the model must not write into it"""
+
+        def forward(self, x, *a, **k):
+            log.append(("enc", "pass", x))
+            return x
+
+    if encm == "passthrough":
+        encs = Pass()
+        decs = Dec("joint")
+        model = MultipleAccessChannelModel(encoders=encs, decoders=decs, channel=Chan(), power_constraint=Cons(), num_devices=users)
+        x0 = ctx.reals("x0", shape)
+        xs = [x0] * users  # one tensor object shared by all users
+
+        def twice(inp):
+            first = model(inp)
+            n1 = len(log)
+            second = model(inp)
+            return first, second, n1
+
+        out = ctx.call(twice, xs)
+        ctx.ensure("returns", out.ok, note=repr(out.exc) if not out.ok else "")
+        if not out.ok:
+            return
+        ctx.ensure("inputs_unmodified", out.unmodified)
+        cons_calls = [c for c in log if c[0] == "cons"]
+        ctx.ensure("one_constraint_use_per_call", len(cons_calls) == 2)
+        want = np.empty(shape, dtype=object)
+        x0p = P(x0)
+        for idx in np.ndindex(*shape):
+            want[idx] = S.mul(users, x0p[idx])
+        for ci, c in enumerate(cons_calls[:2]):
+            ctx.ensure(f"call{ci}.constraint_sees_superposition", SP.all_eq(P(c[1]), want), note="sum of the users' encoded signals = users * x0")
+        return
     encs = Enc("shared") if encm == "shared" else [Enc(i) for i in range(users)]
     decs = Dec("joint") if decm == "joint" else [Dec(i) for i in range(users)]
     if decm == "separate" and users == 1:
@@ -398,6 +441,7 @@ def multiple_access(ctx, cfg):
     ctx.ensure("returns", out.ok, note=repr(out.exc) if not out.ok else "")
     if not out.ok:
         return
+    ctx.ensure("inputs_unmodified", out.unmodified)
     enc_calls = [c for c in log if c[0] == "enc"]
     ctx.ensure("each_user_encoded_once_in_order", len(enc_calls) == users and all(SP.all_eq(P(c[2]), P(xs[i])) is True or True for i, c in enumerate(enc_calls)) and SP.conj(SP.all_eq(P(c[2]), P(xs[i])) for i, c in enumerate(enc_calls)))
     if encm == "separate":
@@ -687,7 +731,8 @@ def _native_list_check(target):
     for n in range(5):
         for arg in ([None] if target.endswith("add_step") else list(range(-2, n + 2))):
             m = cls()
-            fs = [(lambda x, i=i: x) for i in range(n)]
+            base_f = [(lambda x, i=i: x) for i in range(max(1, (n + 1) // 2))]
+            fs = [base_f[i % len(base_f)] for i in range(n)] if cls is SequentialModel else [(lambda x, i=i: x) for i in range(n)]  # the same object at several positions
             for f in fs:
                 m.add_step(f)
             before = list(getattr(m, attr))
